@@ -156,14 +156,78 @@ static void run_fifo(Src &s) {
   }
 }
 
+// ------------------------------------------------------------------ the same directory given twice
+// Both directory arguments (or two PARSING_DIRS items) name the same directory: its files are consulted once per
+// layer. However often a file is consulted, the number of checks equals the number of consultations the history
+// shows, and refusing the n-th check fails the call.
+static void run_same_dir_twice(Src &s) {
+  cleanup_tree(g_scr.dir);
+  g_case.tag("same_directory_twice");
+  const std::string D = g_scr.dir + "/both";
+  mkdir_p(D + "/app.conf.d");
+  if (s.chance(70)) write_file(D + "/app.conf", "m=1\n");
+  int nd = 1 + (int)s.below(3);
+  for (int i = 0; i < nd; i++) write_file(D + "/app.conf.d/" + std::to_string(10 * (i + 1)) + "-d.conf", "d" + std::to_string(i) + "=1\n");
+  const bool via_config = s.chance(40);
+  g_case.desc = std::string("same directory twice via ") + (via_config ? "readConfigWithCallback(PARSING_DIRS=D:D)" : "readDirsHistoryWithCallback(D, D)") + ", " + std::to_string(nd) + " drop-ins";
+  g_case.nontrivial = true;
+  g_case.shape_hash = fnv_u64((uint64_t)nd * 2 + via_config, 0xd0d0);
+  size_t calls_accept_all = 0, members = 0;
+  for (size_t refuse_at = 0;; refuse_at++) {  // 0: accept everything; n: refuse the n-th check
+    CbCtx cb;
+    size_t ncall = 0;
+    cb.decide = [&](const char *) { return ++ncall != refuse_at; };
+    const void *cbdata[2] = {&cb, nullptr};
+    econf_err rc;
+    bool handed = false;
+    if (via_config) {
+      econf_file *kf = nullptr;
+      econf_err e0 = econf_newKeyFile_with_options(&kf, ("PARSING_DIRS=" + D + ":" + D).c_str());
+      VF_CHECK(e0 == ECONF_SUCCESS, "harness", "options object");
+      econf_file *mine = kf;
+      rc = econf_readConfigWithCallback(&kf, nullptr, nullptr, "app", "conf", "=", "#", tree_callback, cbdata);
+      handed = kf != nullptr && kf != mine;
+      if (kf) econf_freeFile(kf);
+    } else {
+      econf_file **hist = (econf_file **)-1;
+      size_t hn = 3;
+#pragma GCC diagnostic push
+#pragma GCC diagnostic ignored "-Wdeprecated-declarations"
+      rc = econf_readDirsHistoryWithCallback(&hist, &hn, D.c_str(), D.c_str(), "app", "conf", "=", "#", tree_callback, cbdata);
+#pragma GCC diagnostic pop
+      handed = hist != (econf_file **)-1 && hist != nullptr;
+      if (handed && rc == ECONF_SUCCESS) {
+        if (refuse_at == 0) members = hn;
+        for (size_t i = 0; i < hn; i++) econf_freeFile(hist[i]);
+        free(hist);
+      }
+    }
+    if (refuse_at == 0) {
+      VF_CHECK(rc == ECONF_SUCCESS, "read-failed", g_case.desc << ": accept-all read rc=" << rc);
+      calls_accept_all = cb.log.size();
+      if (!via_config)
+        VF_CHECK(members == calls_accept_all, "unchecked-file-consulted",
+                 g_case.desc << ": the history has " << members << " members but the callback was called " << calls_accept_all << " times");
+    } else {
+      g_case.tag("with_rejection");
+      VF_CHECK(rc == ECONF_PARSING_CALLBACK_FAILED, "wrong-code", g_case.desc << ": check number " << refuse_at << " of " << calls_accept_all << " refused, rc=" << rc);
+      VF_CHECK(!(handed && rc != ECONF_SUCCESS && !via_config), "partial-result", g_case.desc << ": a history was handed back after a rejection");
+    }
+    if (refuse_at >= calls_accept_all) break;
+  }
+  g_case.evals = calls_accept_all + 1;
+  cleanup_tree(g_scr.dir);
+}
+
 static void run(Src &s) {
   econf_reset_security_settings();
   cleanup_tree(g_scr.dir);  // nothing may leak from a previous (failed) case
   TreeOpts to;
   to.max_consulted = 6;
   // entry point: 0 readConfigWithCallback, 1 readDirsWithCallback, 2 readDirsHistoryWithCallback, 3 readFileWithCallback
-  size_t ep = s.weighted({40, 22, 22, 16, 5});
+  size_t ep = s.weighted({40, 22, 22, 16, 5, 4});
   if (ep == 4) return run_fifo(s);
+  if (ep == 5) return run_same_dir_twice(s);
   if (ep == 1 || ep == 2) to.only_twodirs = true;
   if (ep == 0 || ep == 3) to.allow_twodirs = false;
   Params pa = gen_params(s, to);
@@ -214,6 +278,9 @@ static void run(Src &s) {
 
   // restrictions that every file of the tree satisfies may be in force: the caller's check is still owed
   // (bit 0: permission bits every generated file and directory has; bit 1: our own uid; bit 2: our own gid)
+  // a check need not have a context: the callback may be registered with a NULL data pointer
+  const bool null_data = cookie == nullptr && s.chance(60);
+  if (null_data) g_case.tag("callback_registered_with_null_data");
   // the callback may itself read a configuration through the library (a policy file, say)
   const bool reentrant = s.chance(12);
   if (reentrant) g_case.tag("callback_reads_a_configuration");
@@ -269,6 +336,7 @@ static void run(Src &s) {
     for (size_t i : rej) first_rej = std::min(first_rej, i);
     CbCtx cb;
     cb.expect_data = cookie;
+    cb.null_data = null_data;
     if (reentrant) {
       // a side tree the callback consults through the library itself
       mkdir_p(g_scr.dir + "/vfside/usr/pol.conf.d");
@@ -305,8 +373,9 @@ static void run(Src &s) {
     std::vector<Observed> hob;
     if (ep == 3) {
       const void *cbdata[2] = {&cb, cookie};
+      if (null_data) g_cb_for_null_data = &cb;
       econf_file *kf = (econf_file *)-1;
-      rr.rc = econf_readFileWithCallback(&kf, single_name.c_str(), D.c_str(), "#", tree_callback, cbdata);
+      rr.rc = econf_readFileWithCallback(&kf, single_name.c_str(), D.c_str(), "#", tree_callback, null_data ? nullptr : (const void *)cbdata);
       rr.kf = kf == (econf_file *)-1 ? nullptr : kf;
       if (kf == (econf_file *)-1 && rr.rc == ECONF_SUCCESS) VF_FAIL("no-object", ctx << ": success without object");
     } else {
@@ -358,6 +427,9 @@ static void run(Src &s) {
         size_t real = 0;
         (void)real;
         VF_CHECK(hist_handed, "no-history", ctx << ": success without history");
+        // the history lists the files consulted, the callback log the files checked: every consulted file was checked
+        VF_CHECK(hob.size() == cb.log.size(), "unchecked-file-consulted",
+                 ctx << ": the history has " << hob.size() << " members but the callback was called " << cb.log.size() << " times");
       } else {
         VF_CHECK(have, "no-object", ctx << ": success without object");
         std::string d = diff_model(ob, exp, false);
